@@ -17,7 +17,8 @@
 (* earliest match).                                                        *)
 (***************************************************************************)
 EXTENDS Ops
-CONSTANTS HourDoesNotZeroMinutes, Week53Everywhere, DayMoveKeepsHour
+CONSTANTS HourDoesNotZeroMinutes, Week53Everywhere, DayMoveKeepsHour,
+          Hour24SoughtLiterally      \* the loop before the repair: it looked for an hour field reading 24, which ticking over never leaves
 VARIABLES m, t, p0,     \* mode, truncated operand (record as in Ops.tla C20), full operand (zone 0, whole second)
           day, sod,     \* working position
           later,        \* a day-designator loop has moved the position to a later day
@@ -38,7 +39,8 @@ Loop ==
                            ELSE phase' = NextPh(phase) /\ UNCHANGED <<day, sod, later>>
        [] phase = "mi"  -> IF TgtM >= 0 /\ (sod % 3600) \div 60 # TgtM THEN Adv(60) /\ UNCHANGED <<phase, later>>
                            ELSE phase' = NextPh(phase) /\ UNCHANGED <<day, sod, later>>
-       [] phase = "h"   -> IF t.hh >= 0 /\ sod \div 3600 # t.hh THEN Adv(3600) /\ UNCHANGED <<phase, later>>
+       [] phase = "h"   -> IF t.hh >= 0 /\ sod \div 3600 # (IF t.hh = 24 /\ ~Hour24SoughtLiterally THEN 0 ELSE t.hh)
+                           THEN Adv(3600) /\ UNCHANGED <<phase, later>>
                            ELSE phase' = NextPh(phase) /\ UNCHANGED <<day, sod, later>>
        [] phase = "dow" -> IF t.dow > 0 /\ Weekday(day) # t.dow THEN day' = day + 1 /\ later' = TRUE /\ UNCHANGED <<sod, phase>>
                            ELSE phase' = NextPh(phase) /\ UNCHANGED <<day, sod, later>>
